@@ -27,6 +27,60 @@ WALK_ARMS = {  # Expr variant -> the sub-expressions that must be walked
 }
 
 
+def check_generics_kept_unconditionally(S, rule):
+    """the event site's own type-to-text converter keeps the generic arguments of *every* path type: the branch that appends `<args>` depends only on
+    there being arguments, never on the name of the type (a whitelist of containers silently turns the others into bare names).
+    Shared by C12-D7 and C05-D6 (fourth sibling of the three type_to_string renderers)."""
+    etn = S.fn("EventParser", "extract_type_name")
+    if etn is None:
+        rule.bad(V(rule.id, "<anchor>", "missing:extract_type_name", "anchor not found"))
+        return
+    found = False
+    for e in walk_block(etn.body):
+        if e.get("k") != "if":
+            continue
+        fmts = [x for x in walk_block(e["then"]) if x.get("k") == "macro" and x["name"] == "format" and x.get("args") and lit_str(x["args"][0]) and "<{}>" in lit_str(x["args"][0]).replace(" ", "")]
+        if not fmts:
+            continue
+        if e["cond"].get("k") == "letcond":
+            continue      # `if let AngleBracketed(args) = ..`: structural
+        found = True
+        ct = expr_text(e["cond"])
+        named = [x for x in walk(e["cond"]) if (x.get("k") == "lit" and x["lit"]["t"] == "str") or (x.get("k") == "macro" and x["name"] == "matches")]
+        # a boolean local computed from the name just before counts as well
+        locals_ = [x["segs"][0] for x in walk(e["cond"]) if x.get("k") == "path" and len(x["segs"]) == 1]
+        for st in etn.body if False else []:
+            pass
+        by_name_local = False
+        for x in walk_block(etn.body):
+            pass
+        from srclib import stmt_exprs as _se, pat_bindings as _pb
+        def lets(stmts):
+            for st in stmts or []:
+                if isinstance(st, dict) and st.get("k") == "let" and st.get("init") is not None:
+                    yield st
+                for e2 in (_se(st) if isinstance(st, dict) else []):
+                    for y in walk(e2):
+                        for key in ("then", "stmts", "body"):
+                            v = y.get(key)
+                            if isinstance(v, list):
+                                yield from lets(v)
+                        if y.get("k") == "match":
+                            for arm in y["arms"]:
+                                if arm["body"].get("k") == "block":
+                                    yield from lets(arm["body"]["stmts"])
+        for st in lets(etn.body):
+            if set(_pb(st["pat"])) & set(locals_):
+                if any((y.get("k") == "lit" and y["lit"]["t"] == "str") or (y.get("k") == "macro" and y["name"] == "matches") for y in walk(st["init"])):
+                    by_name_local = True
+        if named or by_name_local:
+            rule.bad(V(rule.id, "EventParser::extract_type_name", "generic-arguments-kept-by-name", "generic arguments are kept only under `%s`, a test on the type's name: any other generic type (BTreeMap<K, V>, a user type) degrades to its bare name at the event-payload site" % ct[:80]))
+        else:
+            rule.ok("extract_type_name keeps generic arguments whenever there are any (`%s`)" % ct[:50])
+    if not found:
+        rule.bad(V(rule.id, "EventParser::extract_type_name", "no-generic-branch", "no branch appends generic arguments"))
+
+
 def check_event_uniqueness(P, r6):
     """one listener per event name and per generated identifier; shared by C12-D6 and C02-D5"""
     cec = P.find("TypeCollector::create_event_contexts")
@@ -398,6 +452,7 @@ def check(ctx):
                 r7.ok("%s handled" % need)
             else:
                 r7.bad(V(r7.id, "EventParser::infer_payload_type", "no-arm:%s" % need, "payload form %s is not handled" % need))
+    check_generics_kept_unconditionally(S, r7)
     etn = S.fn("EventParser", "extract_type_name")
     if etn is None:
         r7.bad(V(r7.id, "<anchor>", "missing:extract_type_name", "anchor not found"))
